@@ -309,6 +309,13 @@ def derives_from_psks(fn, R, op):
     from ..flow import fields_only
     pts = R.pts
     v = pts._val_pts(op) or set()
+    from .common import find_call
+    from ..guards import expr_paths
+    for root, proj in v:
+        if root[0] == "loc" and fn.single_def(root[1]) is not None:
+            c = find_call(strip_bb(R.local(root[1])), ("Option::<T>::ok_or",))
+            if c is not None and c[3] and any("psks" in fields_only(p2) for r2, p2 in (expr_paths(strip_bb(c[3][0])) or ())):
+                return True
     for root, proj in v:
         if root[0] == "ext" and "psks" in fields_only(proj):
             return True
